@@ -298,3 +298,8 @@ def finalize(ctx):
         ctx.inconc("no cross-process comparison happened")
     if ctx.counters.get("pickle_round_trips_cross_process", 0) == 0:
         ctx.inconc("no cross-process pickle round trip happened")
+
+
+RULE += (
+    ' Fixed tokens: programs built three times over one untokenizable (lock-bearing) instance, its persisted form and a slice of it must agree in name, keys and optimized key set.'
+)
